@@ -44,12 +44,12 @@ def parse_strace(path):
     return out
 
 
-def run_isolated(binary, args, lines, timeout=600, shards=12, strace_dir=None):
+def run_isolated(binary, args, lines, timeout=600, shards=12, strace_dir=None, min_shard=20):
     """Like run_lines, but a worker that dies (fatal stack overflow, OOM, hang) is attributed to
     the case it was running, which gets a synthetic result; the rest of the shard is re-run."""
     if not lines:
         return {}, {}
-    n = max(1, min(shards, len(lines) // 20 + 1))
+    n = max(1, min(shards, len(lines) // min_shard + 1))
     pending = [lines[i::n] for i in range(n)]
     results, crashes = {}, {}
     import threading
